@@ -145,9 +145,15 @@ func runStopScenario(t *testing.T, sc stopScenario) verifh.Case {
 		}
 		waitDone := func() {
 			// Run must return promptly; if it does not, the trace simply has no return event
+			bound := 120 * time.Second
+			for _, d := range sc.Release {
+				if time.Duration(d)+60*time.Second > bound {
+					bound = time.Duration(d) + 60*time.Second // the scripted transmissions themselves take that long
+				}
+			}
 			select {
 			case <-done:
-			case <-time.After(120 * time.Second):
+			case <-time.After(bound):
 			}
 		}
 		if sc.CancelInRead {
@@ -268,7 +274,9 @@ func TestVerifC08(t *testing.T) {
 					CancelInRead: true, Tags: tag("cancel-behind-handover")})
 			}
 			// in flight (blocked in WriteTo) at the cancel, released after / at / before it
-			for _, rel := range [][]int64{{1e6}, {2e9}, {0}, {-1e6}, {5e9, 1e6, 2e9}, {1e6, 1e6, 1e6}, {3e9, 2e9, 1e9}} {
+			// (virtual time is free: also transmissions that stay in flight for 15 s, 1 min, 10 min after the stop -- Run waits for
+			// them however long they take, there is no point after which the final RA may overtake them)
+			for _, rel := range [][]int64{{1e6}, {2e9}, {0}, {-1e6}, {5e9, 1e6, 2e9}, {1e6, 1e6, 1e6}, {3e9, 2e9, 1e9}, {15e9}, {60e9, 1e9, 30e9}, {600e9}} {
 				emit(stopScenario{ID: "inflight", Terminate: term, UnicastOnly: uo, Events: three, CancelAt: T + 600e6,
 					GateUnicast: true, Release: rel, Tags: tag("in-flight")})
 			}
